@@ -34,6 +34,6 @@ theorem N3_DTAU_DF__DS_DF (hc : c * c = 2) (h2 : (2:K) ≠ 0)
   (try rw [← hden0])
   generalize_ne hd0 => e0 he0
   (try (repeat' apply And.intro))
-  all_goals (first | rfl | (field_simp <;> first | (c23_ring hc) | ((try simp only [← he0]) <;> c23_field hc)))
+  all_goals (first | rfl | (field_simp <;> first | (c23_ringc hc) | ((try simp only [← he0]) <;> c23_fieldc hc)))
 
 end TfelVerif.C23.PropsN3_DTAU_DF__DS_DF
